@@ -36,7 +36,11 @@ func (p *Program) scopeFor(c *Contract) (*clauseScope, error) {
 		if fi.Decl.Body == nil {
 			return nil, fmt.Errorf("%s has no body", c.Key)
 		}
-		return &clauseScope{pkg: pkg.Types, pos: fi.Decl.Body.Rbrace, ftype: fi.Decl.Type, decl: fi.Decl, info: pkg.TypesInfo}, nil
+		pos := fi.Decl.Body.Rbrace
+		if c.ScopeEntry {
+			pos = fi.Decl.Body.Lbrace + 1
+		}
+		return &clauseScope{pkg: pkg.Types, pos: pos, ftype: fi.Decl.Type, decl: fi.Decl, info: pkg.TypesInfo}, nil
 	}
 	// interface method: use the generated stub
 	stub := p.ByKey[c.Pkg+":"+stubName(c.Key)]
